@@ -13,7 +13,41 @@ var knobsRace = Knobs{MinInst: 1, MaxInst: 3, LatFrac: 0.3, WatchDelayH: 1, Faul
 
 var hammerCalls = []string{"isleader", "leaderid", "token", "status", "validate", "validateordemote", "register"}
 
+// genRaceTimerPlan: connection notifications placed at the very instants at which the grace timer they (or
+// their predecessors) armed fires, so that the timer goroutine and the client's callback goroutine run the
+// disconnect handler's paths in parallel. A sole monitored leader; after a grace demotion it re-acquires its
+// record once that has lapsed (the store itself stays reachable), so one plan holds several rounds.
+func genRaceTimerPlan(t *rapid.T) *Plan {
+	h := rapid.SampledFrom([]time.Duration{100 * time.Millisecond, 200 * time.Millisecond, 300 * time.Millisecond}).Draw(t, "H")
+	p := &Plan{Profile: "race/timer-instants", H: h, TTL: 3 * h, NoQuiesce: true, Lean: true}
+	in := Inst{ID: "m", Group: "g", Monitored: true, Lat: []time.Duration{1, 3},
+		Grace: rapid.SampledFrom([]time.Duration{2 * h, 2*h + 1, 5 * h}).Draw(t, "grace")}
+	p.Instances = []Inst{in}
+	p.Timeline = []Action{{At: 1, Kind: ActStart, Inst: 0}}
+	g := p.graceOf(0)
+	cur := odd(2 * h)
+	rounds := rapid.IntRange(2, 6).Draw(t, "rounds")
+	for r := 0; r < rounds; r++ {
+		p.Timeline = append(p.Timeline, Action{At: cur, Kind: ActDisconnect, Inst: 0})
+		second := Action{At: cur + g + rapid.SampledFrom([]time.Duration{0, 0, 0, -1, 1}).Draw(t, "off"), Inst: 0,
+			Kind: rapid.SampledFrom([]string{ActDisconnect, ActDisconnect, ActReconnect, ActClosed}).Draw(t, "second")}
+		if rapid.Bool().Draw(t, "burst") {
+			second.Then = rapid.SliceOfN(rapid.SampledFrom([]string{ActDisconnect, ActReconnect}), 1, 2).Draw(t, "then")
+		}
+		p.Timeline = append(p.Timeline, second)
+		// next round once the instance leads again: record lapse + periodic check + jitter
+		cur = odd(cur + g + p.TTL + time.Second + time.Duration(rapid.Int64Range(0, int64(h)).Draw(t, "gap")))
+	}
+	p.Horizon = cur + time.Second
+	p.Hammers = []Hammer{{Inst: 0, From: h, To: p.Horizon, N: 2, Gap: h / 3, Calls: []string{"isleader", "status", "token"}}}
+	sortTimeline(p)
+	return p
+}
+
 func genRacePlan(t *rapid.T) *Plan {
+	if rapid.IntRange(0, 5).Draw(t, "timer_shape") == 0 {
+		return genRaceTimerPlan(t)
+	}
 	p := GenPlan(t, "race", knobsRace)
 	p.NoQuiesce = true
 	p.Lean = rapid.IntRange(0, 3).Draw(t, "lean") > 0
@@ -78,7 +112,7 @@ func TestC20(t *testing.T) {
 		t.Skip("built without -race")
 	}
 	RunCheck(t, CheckSpec{Prop: "C20",
-		Rule:        "plans under every fault class (store faults, partitions, outside writes, takeover, health scripts, connection notifications, probes, stops at op phases, restarts, new objects) plus 1-3 'hammers': 2-8 concurrent caller goroutines per instance issuing IsLeader, LeaderID, Token, Status, ValidateToken, ValidateTokenOrDemote and callback re-registration every 1ns..H/4 of virtual time during a generated window; the binary is built with -race and runs with GOMAXPROCS=16 (virtual time, real parallel execution inside the bubble); three plans in four run 'lean': logger and metrics are no-ops, callbacks and operation returns record nothing and take no shared lock, hammers do not synchronise with each other - so that the harness adds no happens-before edges between library goroutines; oracle: every report of the Go race detector, normalised to the unordered pair of innermost library functions. Non-trivial = a run in which >= 2 hammer calls were made and a leadership transition of the hammered instance (lean plans: an acquisition in its group) happened inside the hammer window; distinct by plan hash.",
+		Rule:        "plans under every fault class (store faults, partitions, outside writes, takeover, health scripts, connection notifications, probes, stops at op phases, restarts, new objects) plus 1-3 'hammers': 2-8 concurrent caller goroutines per instance issuing IsLeader, LeaderID, Token, Status, ValidateToken, ValidateTokenOrDemote and callback re-registration every 1ns..H/4 of virtual time during a generated window; the binary is built with -race and runs with GOMAXPROCS=16 (virtual time, real parallel execution inside the bubble); three plans in four run 'lean': logger and metrics are no-ops, callbacks and operation returns record nothing and take no shared lock, hammers do not synchronise with each other - so that the harness adds no happens-before edges between library goroutines; one plan in six is the shape 'connection notifications at the very instants at which the grace timer fires' (a sole monitored leader, several rounds); oracle: every report of the Go race detector, normalised to the unordered pair of innermost library functions. Non-trivial = a run in which >= 2 hammer calls were made and a leadership transition of the hammered instance (lean plans: an acquisition in its group) happened inside the hammer window; distinct by plan hash.",
 		Gen:         genRacePlan,
 		Oracle:      OracleC20,
 		Assumptions: []string{"the race detector only reports races on accesses that were executed; it is happens-before based, so the accesses need not coincide in time", "reports with no library frame on either side are harness bugs: they fail the check's self-test, not the property"}})
